@@ -466,8 +466,35 @@ def pre_build(ctx):
     py2lean.pre_build(ctx, ("sliced",))
 
 
+KNOWN_OFFSET_SITE = "persim/sliced_wasserstein.py:projections-round-at-coordinate-size"
+
+
+def known_offset_probe(ctx):
+    """the listed finding: every projection <l_theta, x> and the diagonal projection cos(pi/4)*(b+d)/sqrt(2) round at the
+    size of the COORDINATES although the value depends only on coordinate differences.  Replayed on the listed inputs:
+    SW([[2^30, 2^30]], []) must be 0 ("ignores diagonal points", "never exceeds twice the 1-Wasserstein distance", which is
+    0.0 here), and translating [[0, 2^-13]] by 2^30 along the diagonal must not change SW (an exact translation of floats)."""
+    def fails():
+        import persim
+        E = np.zeros((0, 2))
+        D = np.array([[2.0 ** 30, 2.0 ** 30]])
+        import warnings
+        with warnings.catch_warnings():
+            warnings.simplefilter("ignore")
+            sw_d = float(persim.sliced_wasserstein(D, E)); w1_d = float(persim.wasserstein(D, E))
+            a = float(persim.sliced_wasserstein(np.array([[2.0 ** 30, 2.0 ** 30 + 2.0 ** -13]]), E))
+            b = float(persim.sliced_wasserstein(np.array([[0.0, 2.0 ** -13]]), E))
+        rel = abs(a - b) / b if b else math.inf
+        bad = sw_d > 2 * w1_d or sw_d != 0.0 or rel > 1e-9
+        return bad, ("sliced_wasserstein([[2^30,2^30]], []) = %r (must be 0 = 2*W1 = %r); [[0,2^-13]] translated by 2^30 along "
+                     "the diagonal: %r against %r (%.1e of the value)" % (sw_d, 2 * w1_d, a, b, rel))
+    common.known_probe(ctx, "C15", KNOWN_OFFSET_SITE, fails,
+                       {"kind": "known_probe", "stmt": "sliced_wasserstein([[2**30, 2**30]], []) and [[2**30, 2**30+2**-13]] vs [[0, 2**-13]] against []"})
+
+
 def run(ctx):
     py2lean.report_broken(ctx, PROP_FILES)
+    known_offset_probe(ctx)
     r = ctx.rng
     ctx.extra["source_digest"] = {"persim/sliced_wasserstein.py": common.source_digest("persim/sliced_wasserstein.py", ["sliced_wasserstein"])}
     nmax = 20 if ctx.thorough else 8
